@@ -1,4 +1,4 @@
-import Cgm.Driver.OpsRaw
+import Cgm.Driver.OpsExtra
 /-!
 # Driver: reads op lines on stdin, prints the model's answer per line.
 -/
@@ -26,7 +26,8 @@ def lookup (name : String) : Option Op :=
   (opsQuat name).orElse fun _ =>
   (opsBranch name).orElse fun _ =>
   (opsXformSpecial name).orElse fun _ =>
-  lookupTyped name
+  (lookupTyped name).orElse fun _ =>
+  opsExtra name
 
 def runLine (line : String) : String :=
   match (line.splitOn " ").filter (· ≠ "") with
